@@ -147,7 +147,12 @@ def translate():
         gen = os.path.join(THEORIES, "Gen")
         os.makedirs(gen, exist_ok=True)
         for p in glob.glob(os.path.join(tmp, "*.v")):
-            write_if_changed(os.path.join(gen, os.path.basename(p)), open(p).read())
+            dstp = os.path.join(gen, os.path.basename(p))
+            changed = write_if_changed(dstp, open(p).read())
+            if ALT and not changed:
+                # a scratch-tree build dir receives .vo files rsynced from the main tree with
+                # their mtimes; make must never take a dependent of Gen/*.v as up to date there
+                os.utime(dstp, None)
         return True, out
 
 
@@ -484,7 +489,9 @@ class Ctx:
                                    % " ".join(vo_targets))
         tb = ["Coq 8.16.1 kernel (coqc); vm_compute used, native_compute not used",
               "Go->Coq translator /verif/translate (only where Gen/*.v is in this property's closure: BOLT-3 script "
-              "templates/witness shapes GenScripts.v for C04/C05, lnwire layouts GenWire.v/GenWireSym.v for C10)",
+              "templates/witness shapes GenScripts.v for C04/C05; lnwire layouts GenWire.v/GenWireSym.v for C10; integer "
+              "functions and constants GenArith.v/GenConsts.v with <Subsys>/GenBridge.v equalities for C01-C03, C06, "
+              "C09, C10, C11, C14, C17, C18); its Go-type table (btcutil.Amount = int64, …) is trusted",
               "correspondence harness (Go test files injected with -overlay) + python driver lib/verif.py",
               "model evaluated inside Coq by vm_compute on the recorded implementation traces"]
         axs = sorted({a for a in asm.values() if a and "Closed under the global context" not in a})
